@@ -285,3 +285,104 @@ func InstrPos(in ssa.Instruction) token.Pos {
 func CalleeIs(fn *ssa.Function, obj *types.Func) bool {
 	return fn != nil && fn.Object() == obj
 }
+
+// ReturnValues resolves the operands of a Return through defer-spilled result
+// cells: when a function has defers, go/ssa stores each result into a cell,
+// runs the defers and returns the loaded cells.  For each result that is such a
+// load, the value stored into the cell in the same block (before the return)
+// is given instead.
+func ReturnValues(ret *ssa.Return) []ssa.Value {
+	out := make([]ssa.Value, len(ret.Results))
+	for i, rv := range ret.Results {
+		out[i] = rv
+		u, ok := rv.(*ssa.UnOp)
+		if !ok || u.Op != token.MUL {
+			continue
+		}
+		al, ok := u.X.(*ssa.Alloc)
+		if !ok {
+			continue
+		}
+		for _, in := range ret.Block().Instrs {
+			if st, ok := in.(*ssa.Store); ok && st.Addr == ssa.Value(al) {
+				out[i] = st.Val
+			}
+			if in == ssa.Instruction(u) {
+				break
+			}
+		}
+	}
+	return out
+}
+
+// ResolveCell: if v is a load of a local cell with a store earlier in the same block, the stored value.
+func ResolveCell(v ssa.Value) ssa.Value {
+	u, ok := v.(*ssa.UnOp)
+	if !ok || u.Op != token.MUL {
+		return v
+	}
+	al, ok := u.X.(*ssa.Alloc)
+	if !ok {
+		return v
+	}
+	res := v
+	for _, in := range u.Block().Instrs {
+		if in == ssa.Instruction(u) {
+			break
+		}
+		if st, ok := in.(*ssa.Store); ok && st.Addr == ssa.Value(al) {
+			res = st.Val
+		}
+	}
+	return res
+}
+
+// ErrorTested reports whether the error produced by the call instruction (its
+// error-typed result) is compared with nil somewhere, directly or after being
+// stored in a local cell.
+func ErrorTested(call ssa.Instruction) bool {
+	v, ok := call.(ssa.Value)
+	if !ok {
+		return false
+	}
+	var errVals []ssa.Value
+	if isErrorType(v.Type()) {
+		errVals = append(errVals, v)
+	}
+	if refs := v.Referrers(); refs != nil {
+		for _, r := range *refs {
+			if ex, ok := r.(*ssa.Extract); ok && isErrorType(ex.Type()) {
+				errVals = append(errVals, ex)
+			}
+		}
+	}
+	tested := func(x ssa.Value) bool {
+		for _, r := range *x.Referrers() {
+			if bo, ok := r.(*ssa.BinOp); ok && (bo.Op == token.NEQ || bo.Op == token.EQL) {
+				return true
+			}
+		}
+		return false
+	}
+	for _, ev := range errVals {
+		if tested(ev) {
+			return true
+		}
+		for _, r := range *ev.Referrers() {
+			st, ok := r.(*ssa.Store)
+			if !ok {
+				continue
+			}
+			al, ok := st.Addr.(*ssa.Alloc)
+			if !ok {
+				continue
+			}
+			for _, rr := range *al.Referrers() {
+				if ld, ok := rr.(*ssa.UnOp); ok && ld.Op == token.MUL && tested(ld) {
+					return true
+				}
+			}
+		}
+	}
+	return false
+}
